@@ -378,6 +378,43 @@ theorem noD_window (j : Bytes) (hj : ∀ b ∈ j, b ≠ 0x44#8) (k : Nat) (hk : 
   injection hc with h1 _
   exact hj _ (List.getElem_mem hk) h1
 
+/-- junk that does not contain the pattern has no occurrence starting inside it either, not even
+    one that straddles into the real pattern: the four bytes of the pattern are pairwise
+    different, so no proper prefix of it is a suffix of it -/
+theorem notContains_window (j : Bytes) (hj : ∀ k, (j.drop k).take 4 ≠ DLT_PATTERN) (k : Nat)
+    (hk : k < j.length) : ((j ++ DLT_PATTERN).drop k).take 4 ≠ DLT_PATTERN := by
+  rw [List.drop_append_of_le_length (by omega)]
+  have h := hj k
+  have hlen : (j.drop k).length = j.length - k := List.length_drop
+  generalize j.drop k = t at *
+  rcases t with _ | ⟨a, _ | ⟨b, _ | ⟨c, _ | ⟨e, rest⟩⟩⟩⟩
+  · simp only [List.length_nil] at hlen; omega
+  · intro hc
+    simp only [DLT_PATTERN, List.cons_append, List.nil_append, List.take_succ_cons, List.take_zero,
+      List.cons.injEq, and_true] at hc
+    exact absurd hc.2.1 (by decide)
+  · intro hc
+    simp only [DLT_PATTERN, List.cons_append, List.nil_append, List.take_succ_cons, List.take_zero,
+      List.cons.injEq, and_true] at hc
+    exact absurd hc.2.2.1 (by decide)
+  · intro hc
+    simp only [DLT_PATTERN, List.cons_append, List.nil_append, List.take_succ_cons, List.take_zero,
+      List.cons.injEq, and_true] at hc
+    exact absurd hc.2.2.2 (by decide)
+  · simpa only [List.cons_append, List.take_succ_cons, List.take_zero] using h
+
+/-- the converse: an occurrence inside the junk is an occurrence starting inside it -/
+theorem window_notContains (j : Bytes)
+    (hj : ∀ k, k < j.length → ((j ++ DLT_PATTERN).drop k).take 4 ≠ DLT_PATTERN) (k : Nat) :
+    (j.drop k).take 4 ≠ DLT_PATTERN := by
+  intro hc
+  have hl : ((j.drop k).take 4).length = 4 := by rw [hc]; rfl
+  rw [List.length_take, List.length_drop] at hl
+  have hk : k < j.length := by omega
+  apply hj k hk
+  rw [List.drop_append_of_le_length (by omega), List.take_append_of_le_length (by rw [List.length_drop]; omega)]
+  exact hc
+
 /-! ### one step of the stream of C06 -/
 
 /-- junk without the byte 'D' in front of a well-formed message with storage header: the
